@@ -14,7 +14,6 @@ import (
 	"fmt"
 	"io"
 	"os"
-	"sort"
 	"strings"
 	"sync"
 	"time"
@@ -50,7 +49,7 @@ type input struct {
 // ---- one execution ---------------------------------------------------------------------------------------
 
 const (
-	phNot = iota
+	phNot   = iota
 	phEnq   // parked at lock.enqueued (in the model: inside the select)
 	phDone  // parked at lock.select.done (the select took <-ctx.Done())
 	phHold  // Lock returned the unlock function
@@ -117,7 +116,7 @@ var discardLogger = func() logging.Logger {
 	return logging.NewLogrus(l)
 }()
 
-var stallTimeout = 5 * time.Second
+var stallTimeout = 10 * time.Second
 
 func accName(a int) string { return fmt.Sprintf("acc:%d", a) }
 func accNames(as []int) []string {
@@ -546,6 +545,9 @@ func execute(nacc int, prog []reqSpec, choose chooser) outcome {
 			}
 			e.fail("leak:"+cause, fmt.Sprintf("every request has finished but account %d is still locked: a fresh write lock on it has to wait", a))
 			// get the probe out again
+			if e.reqs[k].phase != phEnq {
+				continue
+			}
 			e.do(act{K: "cancel", I: k})
 			e.do(act{K: "wake", I: k})
 			if e.reqs[k].phase == phDone {
@@ -674,7 +676,8 @@ func (rn *runner) record(o outcome) {
 				ok = true
 			}
 		}
-		if !ok && !strings.HasPrefix(f.sig, "stall:") {
+		if !ok {
+			// includes a stall that does not happen again: an overloaded machine, not the locker
 			rn.nonrepro++
 			continue
 		}
@@ -881,7 +884,7 @@ func main() {
 	}
 	dfsLimit, nRandProg, perProg := 450, 220, 60
 	if r.Thorough() {
-		dfsLimit, nRandProg, perProg = 60000, 1500, 250
+		dfsLimit, nRandProg, perProg = 60000, 2500, 250
 	}
 	complete := 0
 	progs, naccs := curated()
@@ -911,12 +914,6 @@ func main() {
 	if rn.stalls > 0 {
 		r.Sum.Notes = append(r.Sum.Notes, fmt.Sprintf("executions in which a goroutine never came back: %d", rn.stalls))
 	}
-	keys := make([]string, 0, len(r.Sum.Distribution))
-	for k := range r.Sum.Distribution {
-		keys = append(keys, k)
-	}
-	sort.Strings(keys)
-	_ = keys
 	r.Finish()
 	if rn.stalls > 0 {
 		// goroutines of stalled executions are still blocked inside the locker
